@@ -8,6 +8,8 @@ def run(chk):
     thorough = chk.tier == "thorough"
     chk.mc("Loaders", "MC_Loaders.cfg", required=["ResolveDegree", "DeleteColumn", "CreateJdd", "TryCandidate", "Restore"])
     chk.mc("Loaders", "MC_Loaders_rejectleak.cfg", expect_violation="C06_Law")   # deviation: a rejected candidate input leaves something behind
+    from .. import crash
+    crash.mc(chk)
     if thorough:
         chk.mc("Loaders", "MC_Loaders_big.cfg", required=["ResolveDegree"], timeout=7200)
     chk.mc("Loaders", "MC_Loaders_pinned_reset.cfg", expect_violation="C07_Accumulates")
@@ -39,6 +41,8 @@ def run(chk):
     # crash points: an earlier construction with the same degree function was aborted by its k-th call raising
     for c0 in [c for c in cs if c.get("src") == "random"][:200 if not thorough else 4000]:
         cs.append(dict(c0, pre_fault=rng.choice([1, 2, 3, 4, 6]), src="after-abort"))
+    for c0 in [c for c in cs if c.get("src") == "random"][200:400 if not thorough else 4000]:
+        cs.append(dict(c0, pre_abort=rng.random(), src="after-abandoned"))
     traces = [L.execute(c) for c in cs]
     multi = [t for t in traces if len(t.get("steps", [])) > 1]
     if not multi:
